@@ -89,6 +89,14 @@ type Trace struct {
 	Extra   map[string]interface{} `json:"extra,omitempty"`
 }
 
+// exact copies b into a slice whose capacity equals its length: whatever the code under test reads or
+// re-slices beyond the bytes it was given (spare capacity hides such over-reads) fails the bounds check.
+func exact(b []byte) []byte {
+	c := make([]byte, len(b))
+	copy(c, b)
+	return c[:len(c):len(c)]
+}
+
 type parserI interface {
 	Parse([]byte) error
 	ParseString(string) error
@@ -280,14 +288,14 @@ func runParse(c *Case, tr *Trace) {
 		switch entry {
 		case "parse":
 			// the documented one-shot function
-			addCall("parse", len(doc), api.parse(append([]byte(nil), doc...), v), nil)
+			addCall("parse", len(doc), api.parse(exact(doc), v), nil)
 		case "parsestr":
 			addCall("parse", len(doc), api.parseString(string(doc), v), nil)
 		case "write":
 			p := api.newParser(v)
 			ok := true
 			for _, ch := range chunksOf(doc, c.Cuts) {
-				buf := append([]byte(nil), ch...)
+				buf := exact(ch)
 				n, err := p.Write(buf)
 				// scribble the caller's buffer: the parser must not depend on it any more
 				for i := range buf {
@@ -307,16 +315,16 @@ func runParse(c *Case, tr *Trace) {
 				}
 			}
 		case "reader":
-			r := &chunkReader{chunks: chunksOf(append([]byte(nil), doc...), c.Cuts), eofWith: c.EOFWith}
+			r := &chunkReader{chunks: chunksOf(exact(doc), c.Cuts), eofWith: c.EOFWith}
 			n, err := api.parseReader(r, v)
 			addCall("parsereader", len(doc), err, nil)
 			tr.Calls[len(tr.Calls)-1].Ret = int(n)
 		case "decbytes", "decreader":
 			var d decoderI
 			if entry == "decbytes" {
-				d = api.newBytesDecoder(append([]byte(nil), doc...), v)
+				d = api.newBytesDecoder(exact(doc), v)
 			} else {
-				r := &planReader{data: append([]byte(nil), doc...), plan: c.Plan, eofWith: c.EOFWith}
+				r := &planReader{data: exact(doc), plan: c.Plan, eofWith: c.EOFWith}
 				buf := c.Buf
 				if buf <= 0 {
 					buf = 64
@@ -496,11 +504,11 @@ func runSched(c *Case, tr *Trace) {
 			var err error
 			switch entry {
 			case "parse":
-				err = api.parse(append([]byte(nil), doc...), rec)
+				err = api.parse(exact(doc), rec)
 			case "write", "write0":
 				p := api.newParser(rec)
 				for _, ch := range chunksOf(doc, cuts) {
-					buf := append([]byte(nil), ch...)
+					buf := exact(ch)
 					if _, err = p.Write(buf); err != nil {
 						break
 					}
@@ -519,7 +527,7 @@ func runSched(c *Case, tr *Trace) {
 					}
 				}
 			case "reader", "readerE":
-				_, err = api.parseReader(&chunkReader{chunks: chunksOf(append([]byte(nil), doc...), cuts), eofWith: entry == "readerE"}, rec)
+				_, err = api.parseReader(&chunkReader{chunks: chunksOf(exact(doc), cuts), eofWith: entry == "readerE"}, rec)
 			default:
 				panic("harness: unknown sched entry " + entry)
 			}
